@@ -19,6 +19,7 @@ Fixpoint pcms (m : ms) : N * N :=
   match m with
   | MNonZero x => (fst (pcms x), 0)
   | MOrD x z => (N.max (fst (pcms x)) (snd (pcms x) + fst (pcms z)), snd (pcms x) + snd (pcms z))
+  | MOrI x z => (N.max (fst (pcms x)) (fst (pcms z)), N.max (snd (pcms x)) (snd (pcms z)))
   | _ => (ast_cms m, ast_cms m)
   end.
 
@@ -38,6 +39,8 @@ Qed.
 
 Definition instk (b : base) (c : bytes) (w rest : stack) : stack :=
   match b with BW => c :: w ++ rest | _ => w ++ rest end.
+Lemma instk_nw b c w rest : b <> BW -> instk b c w rest = w ++ rest.
+Proof. destruct b; try reflexivity. intros H. contradiction. Qed.
 
 Section OpsTrace.
   Variable e : env.
@@ -130,10 +133,37 @@ Section OpsTrace.
       exact (Hd a b _ Ha (proj2 (Iz c b rest al) Hb)).
   Qed.
 
+  (* ---- or_i(X,Z) = IF X ELSE Z ENDIF: the selector on top of the witness decides ---- *)
+  Lemma ts_or_i x z : TS x -> TS z -> TS (MOrI x z).
+  Proof.
+    intros IHx IHz t Ht Hwf Hnm Hms. cbn [type_of] in Ht. apply rbind_ok in Ht. destruct Ht as [tx [Hx Ht]].
+    apply rbind_ok in Ht. destruct Ht as [tz [Hz Ht]].
+    cbn [wf no_multi multi_small] in Hwf, Hnm, Hms. destruct Hwf as [Hwx Hwz]. destruct Hnm as [Hnx Hnz].
+    apply andb_prop in Hms. destruct Hms as [Hmx Hmz].
+    pose proof (IHx tx Hx Hwx Hnx Hmx) as Ix. pose proof (IHz tz Hz Hwz Hnz Hmz) as Iz.
+    assert (Hb : c_base (t_corr tx) <> BW /\ c_base (t_corr tz) <> BW /\ c_base (t_corr t) <> BW).
+    { destruct tx as [[bx ix dx ux] mx]; destruct tz as [[b2 i2 d2 u2] m2]; unf Ht.
+      destruct bx, b2; try discriminate; inversion Ht; subst; cbn; repeat split; discriminate. }
+    destruct Hb as [Hbx [Hbz Hbt]].
+    intros c w rest al. rewrite (instk_nw _ c w rest Hbt). cbn [enc pcms fst snd]. unfold all_sat, all_dsat. rewrite sd_or_i. cbn [fst snd].
+    assert (Hl : forall a n, bnd e (enc ke x) (mkSt (a ++ rest) al) n ->
+                 bnd e [IIf false (enc ke x) (Some (enc ke z))] (mkSt (([1] :: a) ++ rest) al) n).
+    { intros a n Hn. eapply bnd_if; [reflexivity | apply if_cond_one |]. cbn [xorb if_branch stk alt]. rewrite app_nil_r. exact Hn. }
+    assert (Hr : forall a n, bnd e (enc ke z) (mkSt (a ++ rest) al) n ->
+                 bnd e [IIf false (enc ke x) (Some (enc ke z))] (mkSt (([] :: a) ++ rest) al) n).
+    { intros a n Hn. eapply bnd_if; [reflexivity | apply if_cond_empty |]. cbn [xorb if_branch stk alt]. rewrite app_nil_r. exact Hn. }
+    split; intros Hin; apply in_app_or in Hin; destruct Hin as [Hin|Hin]; apply in_map_iff in Hin; destruct Hin as [a [<- Ha]].
+    - eapply bnd_le; [apply Hl; pose proof (proj1 (Ix c a rest al) Ha) as B; rewrite (instk_nw _ _ _ _ Hbx) in B; exact B | lia].
+    - eapply bnd_le; [apply Hr; pose proof (proj1 (Iz c a rest al) Ha) as B; rewrite (instk_nw _ _ _ _ Hbz) in B; exact B | lia].
+    - eapply bnd_le; [apply Hl; pose proof (proj2 (Ix c a rest al) Ha) as B; rewrite (instk_nw _ _ _ _ Hbx) in B; exact B | lia].
+    - eapply bnd_le; [apply Hr; pose proof (proj2 (Iz c a rest al) Ha) as B; rewrite (instk_nw _ _ _ _ Hbz) in B; exact B | lia].
+  Qed.
+
   Theorem ops_trace_table : forall m, TS m.
   Proof.
     induction m using ms_ind'; try (apply ts_fallback; reflexivity).
     - apply ts_nonzero; assumption.
     - apply ts_or_d; assumption.
+    - apply ts_or_i; assumption.
   Qed.
 End OpsTrace.
